@@ -96,6 +96,10 @@ pub struct Ctx {
     pub job_deadline: Option<std::time::Instant>,
     /// the context under test has no output sink: `into_u8` values are not parked
     pub no_output: bool,
+    /// set while native code that must not be unwound through (extern "sysv64" shims) is on the stack:
+    /// an engine abort is then deferred and raised by the caller after the native call returns
+    pub no_unwind: bool,
+    pub pending_abort: Option<Abort>,
 }
 
 thread_local! {
@@ -170,6 +174,8 @@ pub fn init(kind: Kind, timeout_ms: u64, limits: Limits, hash_mode: HashMode, io
                     width: 8,
                     job_deadline: None,
                     no_output: false,
+                    no_unwind: false,
+                    pending_abort: None,
                 });
             }
         }
@@ -251,7 +257,25 @@ pub fn decide(l: Result<Lit, bool>) -> bool {
     });
     match r {
         Ok(b) => b,
-        Err(a) => abort(a),
+        Err(a) => abort_or_defer(a),
+    }
+}
+
+fn abort_or_defer(a: Abort) -> bool {
+    let deferred = with(|c| {
+        if c.no_unwind {
+            if c.pending_abort.is_none() {
+                c.pending_abort = Some(a.clone());
+            }
+            true
+        } else {
+            false
+        }
+    });
+    if deferred {
+        false
+    } else {
+        abort(a)
     }
 }
 
@@ -280,7 +304,7 @@ pub fn decide_free(k: u32) -> bool {
     });
     match r {
         Ok(b) => b,
-        Err(a) => abort(a),
+        Err(a) => abort_or_defer(a),
     }
 }
 
@@ -294,12 +318,15 @@ pub fn feasible(extra: &[Lit], model: Option<&mut Witness>) -> Answer {
 }
 
 pub fn count_op() {
-    let over = with(|c| {
+    let (over, mem) = with(|c| {
         c.ops += 1;
-        c.active && c.ops > c.limits.max_ops
+        (c.active && c.ops > c.limits.max_ops, c.active && (c.ar.nodes.len() > 1_500_000 || c.ar.lin_entries > 12_000_000))
     });
     if over {
         abort(Abort::Truncated("cell-operation cap reached".into()));
+    }
+    if mem {
+        abort(Abort::Truncated("term arena cap reached (memory bound of one program exploration)".into()));
     }
 }
 
